@@ -147,6 +147,23 @@ def copy(a, order="K", **kw):
     return asarray(a).copy(order=order)
 
 
+def nan_to_num(a, copy=True, nan=0.0, posinf=None, neginf=None):
+    """NaN -> `nan` (default 0); infinities -> the largest finite values of the type (or posinf / neginf)."""
+    arr = asarray(a)
+    if arr.dtype.kind != "f":
+        return arr.copy() if copy else arr
+    big = finfo(arr.dtype).max
+    hi = big if posinf is None else posinf
+    lo = -big if neginf is None else neginf
+    out = where(isnan(arr), nan, arr)
+    out = where(isinf(out) & (out > 0), hi, out)
+    out = where(isinf(out) & (out < 0), lo, out)
+    out = out.astype(arr.dtype)
+    if arr.ndim == 0:
+        return out[()] if hasattr(out, "__getitem__") else out
+    return out
+
+
 def asfortranarray(a, dtype=None):
     a = asarray(a, dtype)
     return a if a.ndim < 2 else a.copy(order="F")
@@ -496,6 +513,9 @@ log = _tr("log")
 log2 = _tr("log2")
 log10 = _tr("log10")
 exp = _tr("exp")
+arccos = _tr("arccos")
+arcsin = _tr("arcsin")
+arctan = _tr("arctan")
 
 
 def power(a, b):
